@@ -234,6 +234,10 @@ func (machj *Machine_json) Dejsoner() *Machine {
 				result.Op[i] = op
 			}
 		}
+		if result.Op[i] == nil {
+			// Never hand out a machine with a hole in its opcode list
+			panic("loading machine: unknown opcode \"" + opname + "\"")
+		}
 	}
 	result.Threaded = machj.Threaded
 	return result
